@@ -814,6 +814,7 @@ func runC08(c *Ctx) {
 	}
 	// round 2: every count / index type × format × extra-list position once per run, and faces of unsupported sizes (c08_mesh.go)
 	c.plyMeshSweep()
+	c.plyMeshTexSweep()
 	// header parser, error and glue branches (model vs ply.ReadHeader / ply.ReadMesh): fixed variants …
 	for _, h := range plyHeaderVariants {
 		data := []byte(h)
